@@ -110,13 +110,23 @@ func (e *Engine) ent(store string, op Op) *schema.Ent {
 	return en
 }
 
-func checker(fields []string) boltz.FieldChecker {
+// checker builds the field checker of a patch: the library consults it with the storage key of each field, which for
+// some fields of schema K differs from the symbol / model name.
+func checker(st *schema.St, fields []string) boltz.FieldChecker {
 	if fields == nil {
 		return nil
 	}
+	keys := map[string]string{}
+	for _, f := range st.AllFields() {
+		keys[f.Name] = f.StoreKey()
+	}
 	m := boltz.MapFieldChecker{}
 	for _, f := range fields {
-		m[f] = struct{}{}
+		if k, ok := keys[f]; ok {
+			m[k] = struct{}{}
+		} else {
+			m[f] = struct{}{}
+		}
 	}
 	return m
 }
@@ -131,7 +141,7 @@ func (e *Engine) Apply(ctx boltz.MutateContext, op *Op) error {
 	case "update":
 		return st.Store.Update(ctx, e.ent(op.Store, *op), nil)
 	case "patch":
-		return st.Store.Update(ctx, e.ent(op.Store, *op), checker(op.Fields))
+		return st.Store.Update(ctx, e.ent(op.Store, *op), checker(st, op.Fields))
 	case "delete":
 		return st.Store.DeleteById(ctx, op.Id)
 	case "deletewhere":
